@@ -55,12 +55,10 @@ func HarnessC13Locks() {
 		}
 		msgs = append(msgs, hxTestMsg(i, nr, f, EncodingQP))
 	}
-	svWatch(c)
+	// the Client, its smtp.Client and every other object the Client keeps a
+	// pointer to (an Auth object kept on the Client is shared by every later dial)
+	svWatchDeep(c)
 	svWatch(c.smtpClient)
-	if c.smtpAuth != nil {
-		// an Auth object kept on the Client is shared by every later dial
-		svWatch(c.smtpAuth)
-	}
 	svLogStart(1)
 	_ = c.Send(msgs...)
 	svLogStop()
@@ -83,6 +81,13 @@ func HarnessC13Locks() {
 	err := c.DialAndSend(hxTestMsg(2, 1, 0, EncodingQP))
 	svLogStop()
 	svAssert(len(s.cmds)+s.closeCalls == before, "C13 DialAndSend touched the shared connection")
+	// what was delivered is the message's own content (memory shared through a
+	// sync.Pool must not be used after it was handed back: the engine overwrites
+	// the byte slices of an object at Put)
+	for _, cm := range append(append([]hxCommit{}, s.commits...), s2.commits...) {
+		svAssert(hxContains(cm.data, []byte("body of message ")) && hxContains(cm.data, []byte("last line\r\n")),
+			"C13 delivered content is not the message's own content (memory of a pooled object used after Put)")
+	}
 	svAssert(svLockErrors() == "", "C13 lock misuse during DialAndSend: "+svLockErrors())
 	svAssert(svLocksHeld() == 0, "C13 a mutex is still held after DialAndSend returned")
 	if err == nil {
